@@ -33,7 +33,7 @@ import (
 const (
 	cidU  = 12 // cids c0..c11
 	peerU = 8  // peers p0..p7
-	nameU = 8
+	nameU = 14 // len(nameTexts)
 )
 
 var invalidTexts = []string{
@@ -214,49 +214,53 @@ func segAttrs(tok string) string {
 	return out
 }
 
-func nameOf(n int) string {
-	switch {
-	case n == 0:
-		return ""
-	case n == nameU-1:
-		return "n&m=e/ ü?#%+;" // characters that need escaping in a query
-	}
-	return fmt.Sprintf("name-%d", n)
-}
-func nameIdx(s string) int {
-	for i := 0; i < nameU; i++ {
-		if nameOf(i) == s {
+// Names, metadata keys and metadata values are adversarial with respect to the parser's own constants: texts
+// that start with or consist of the characters of the "meta-" prefix (a TrimLeft instead of a TrimPrefix eats
+// them), texts equal to option names, texts with characters that mean something in a query string.
+var nameTexts = []string{"", "name-1", "name-2", "name-3", "name-4", "name-5", "name-6",
+	"n&m=e/ ü?#%+;", "meta-name", "name", "mode=direct&replication-min=7", "%zz", "a+b c", "-"}
+
+var metaKeyTexts = []string{"", "key-1", "team", "author", "tag", "-k", "meta-x",
+	"k&y=7 ü", "meta-", "m", "a-", "e", "%41+b c", "name", "mode", "ключ"}
+
+var metaValTexts = []string{"", "val-1", "val-2", "val-3", "val-4", "val-5", "val-6",
+	"v&l=7 ü#", "meta-x", "replication-min", "name", "%zz", "a+b c", "-", "mode=direct", "значение"}
+
+var (
+	metaKeyU = len(metaKeyTexts)
+	metaValU = len(metaValTexts)
+)
+
+func tableIdx(t []string, s string) int {
+	for i, x := range t {
+		if x == s {
 			return i
 		}
 	}
 	return 999
 }
+
+func nameOf(n int) string {
+	if n >= 0 && n < len(nameTexts) {
+		return nameTexts[n]
+	}
+	return fmt.Sprintf("name-%d", n)
+}
+func nameIdx(s string) int { return tableIdx(nameTexts, s) }
 func metaKeyOf(n int) string {
-	switch {
-	case n == 0:
-		return ""
-	case n == 7:
-		return "k&y=7 ü"
+	if n >= 0 && n < len(metaKeyTexts) {
+		return metaKeyTexts[n]
 	}
 	return fmt.Sprintf("key-%d", n)
 }
 func metaValOf(n int) string {
-	switch {
-	case n == 0:
-		return ""
-	case n == 7:
-		return "v&l=7 ü#"
+	if n >= 0 && n < len(metaValTexts) {
+		return metaValTexts[n]
 	}
 	return fmt.Sprintf("val-%d", n)
 }
-func metaIdx(s string, f func(int) string) int {
-	for i := 0; i < 10; i++ {
-		if f(i) == s {
-			return i
-		}
-	}
-	return 999
-}
+func metaKeyIdx(s string) int { return tableIdx(metaKeyTexts, s) }
+func metaValIdx(s string) int { return tableIdx(metaValTexts, s) }
 
 func originOf(n int) ma.Multiaddr { return common.OriginN(n) }
 func originIdx(m ma.Multiaddr) int {
@@ -301,7 +305,7 @@ func metaTok(m map[string]string) string {
 	type kv struct{ k, v int }
 	var l []kv
 	for k, v := range m {
-		l = append(l, kv{metaIdx(k, metaKeyOf), metaIdx(v, metaValOf)})
+		l = append(l, kv{metaKeyIdx(k), metaValIdx(v)})
 	}
 	sort.Slice(l, func(i, j int) bool { return l[i].k < l[j].k || l[i].k == l[j].k && l[i].v < l[j].v })
 	parts := make([]string, len(l))
